@@ -91,7 +91,7 @@ Proof. apply (mono_ok (fun f => p_fargs1 f d ts)). intros. apply p_fargs1_monoS;
 Lemma expr_ok e d rest : wf_expr e -> hgt e <= d -> tail_ok 0 rest -> exists f, p_expr f (S d) 0 (pp e ++ rest) = Ok e rest.
 Proof.
   intros W Hh Ht.
-  exact (expr_roundtrip_loop e W d 0 rest e rest ltac:(lia) (fits0 e) (no_extend_tail0 e rest Ht) (RL_stop d 0 e rest (tail_ok_stop 0 rest Ht))).
+  exact (A_stop e d 0 rest (expr_roundtrip_loop e W) ltac:(lia) (fits0 e) (no_extend_tail0 e rest Ht) (tail_ok_stop 0 rest Ht)).
 Qed.
 
 Lemma tail_semicolon r : tail_ok 0 (TSemicolon :: r).  Proof. cbn. repeat split; discriminate. Qed.
@@ -522,6 +522,10 @@ Definition ex_prog : list stmt :=
     SDisj [([SFormula false (la "g") [la "b"] (la "P") [(la "a", ex_id "x")]], Some (EInt (la "2")));
            ([SBlock [SExpr (EUn UNot (ex_id "p"))]; SFormula true (la "h") [] (la "Q") []], None)] ].
 Example ex_prog_ok : Forall (fun s => wf_top s /\ sneed s <= MAX_DEPTH) ex_prog.
-Proof. repeat constructor; cbn; try discriminate; try lia; repeat constructor; try discriminate. Qed.
+Proof.
+  unfold ex_prog. repeat (apply Forall_cons || apply Forall_nil);
+    (split; [|apply Nat.leb_le; vm_compute; reflexivity]);
+    repeat first [discriminate | exact I | lia | split | apply Forall_cons | apply Forall_nil | progress cbn [wf_stmt wf_expr wf_oexpr fold_right snd fst List.length]].
+Qed.
 Example ex_prog_roundtrip : parse (pp_unit (CU [] [] [] ex_prog)) = Ok (CU [] [] [] ex_prog) [].
 Proof. apply parse_statements. exact ex_prog_ok. Qed.
